@@ -181,7 +181,11 @@ func runSchedule(spec RunSpec, pool string, first bool) (*RunResult, int) {
 			case "rotate":
 				err = api.Rotate(bytes.NewReader(doc), &buf, 90, nil, conf)
 			case "watermark-core":
-				wm, e := api.TextWatermark("Draft "+ts.Doc, "font:Helvetica, scale:.4", true, false, types.POINTS)
+				coreFont := "Helvetica"
+				if len(ts.Args) > 0 {
+					coreFont = ts.Args[0] // different tasks stamp with different core fonts
+				}
+				wm, e := api.TextWatermark("Draft "+ts.Doc, "font:"+coreFont+", scale:.4", true, false, types.POINTS)
 				if e != nil {
 					err = e
 					break
@@ -482,6 +486,13 @@ func genSpec(rng *rand.Rand) RunSpec {
 			k = "lookup" // keep large schedules fast
 		}
 		ts := TaskSpec{Kind: k, Doc: corpus[rng.IntN(len(corpus))]}
+		if k == "watermark-core" {
+			// half of the stamps share one core font (first use of the same font by two tasks), the others differ
+			ts.Args = []string{"Helvetica"}
+			if rng.IntN(2) == 0 {
+				ts.Args = []string{[]string{"Courier", "Times-Roman", "Helvetica-Bold", "Courier-Oblique", "Times-BoldItalic", "Symbol"}[rng.IntN(6)]}
+			}
+		}
 		if k == "lookup" {
 			for j := 0; j < 2+rng.IntN(5); j++ {
 				ts.Args = append(ts.Args, []string{fontName('A'), fontName('B'), fontName('C'), fontName('D'), fontName(stableFont), "*", "Helvetica", "NoSuchFont"}[rng.IntN(8)])
@@ -621,7 +632,7 @@ func fontPool() (string, error) {
 
 // CleanupPool removes the worker's font pool.
 func CleanupPool() {
-	if poolDir != "" {
+	if poolDir != "" && os.Getenv("VERIF_C40_KEEP") == "" {
 		os.RemoveAll(poolDir)
 	}
 }
@@ -637,13 +648,17 @@ func runChild(specs []RunSpec, trace bool) ([]*RunResult, []string, error) {
 	if err != nil {
 		return nil, nil, err
 	}
-	defer os.RemoveAll(dir)
+	if os.Getenv("VERIF_C40_KEEP") == "" {
+		defer os.RemoveAll(dir)
+	} else {
+		fmt.Fprintln(os.Stderr, "c40 debug: batch kept in", dir) // debug aid
+	}
 	b, _ := json.Marshal(Batch{Pool: pool, Specs: specs})
 	sf := filepath.Join(dir, "specs.json")
 	os.WriteFile(sf, b, 0644)
 	bin := filepath.Join(core.VerifDir, ".build", "verifsim-race")
 	cmd := exec.Command(bin, "c40run", sf)
-	cmd.Env = append(os.Environ(), "GOMAXPROCS=1", "GORACE=halt_on_error=0 history_size=5", "VERIF_SCRATCH=/dev/shm")
+	cmd.Env = append(os.Environ(), "GOMAXPROCS=2", "GORACE=halt_on_error=0 history_size=6", "VERIF_SCRATCH=/dev/shm")
 	if trace {
 		cmd.Env = append(cmd.Env, "VERIF_C40_TRACE=1")
 	}
@@ -659,6 +674,9 @@ func runChild(specs []RunSpec, trace bool) ([]*RunResult, []string, error) {
 	case <-time.After(time.Duration(120+60*len(specs)) * time.Second):
 		cmd.Process.Kill()
 		return nil, nil, fmt.Errorf("child did not finish in time: %s", tailStr(stderr.String(), 1500))
+	}
+	if f := os.Getenv("VERIF_C40_STDERR"); f != "" {
+		os.WriteFile(f, stderr.Bytes(), 0644) // debug aid: the race detector's raw output
 	}
 	results := make([]*RunResult, len(specs))
 	sc := bufio.NewScanner(&stdout)
@@ -982,6 +1000,9 @@ func (c40) Replay(payload json.RawMessage) ([]core.Violation, error) {
 			break
 		}
 		fmt.Printf("  step %d: task %d %s -> next %d\n", st.N, st.Task, st.Op, st.Next)
+	}
+	for i, r := range conc[0].Results {
+		fmt.Printf("  result task %d: %s\n", i, r)
 	}
 	for _, e := range conc[0].History {
 		fmt.Printf("  history: task %d [%d,%d] %s(%s) -> %s\n", e.Task, e.Call, e.Ret, e.Op, e.Arg, e.Result)
